@@ -91,6 +91,23 @@ theorem C19_refs_distinct (T : List Nat) (s : HState) (p : PState) (F : Root →
     (hr2 : resolveRef s r2 = some t) : r1 = r2 :=
   inv.resolve_inj r1 r2 c1 c2 h1 h2 t hr1 hr2
 
+/-- **members by reference, after any history** — `get_element_at` / `get_item_by_key` / `packet_get_item` followed through any
+    path: the reference resolves on the heap exactly when it resolves in the pure state, and the address obtained is a block
+    that holds fields representing the pure member (no copy: the block lies in the slot's own footprint, `RepS.atRef`) -/
+theorem C19_history_get (ops : List HOp) (r : Ref) :
+    match getP (runP ops PState.empty) r with
+    | none => resolveRef (runH ops HState.empty) r = none
+    | some c => ∃ t hvt Ft, resolveRef (runH ops HState.empty) r = some t ∧ getHV (runH ops HState.empty).h t = some hvt
+        ∧ Rep (runH ops HState.empty).h hvt c Ft ∧ t ∉ Ft := by
+  obtain ⟨F, inv⟩ := C19_history_heap ops
+  have := inv.atRef r
+  cases hg : getP (runP ops PState.empty) r with
+  | none => rw [hg] at this; exact this
+  | some c =>
+    rw [hg] at this
+    obtain ⟨a, t, hvt, Ft, _, hres, hgt, hrep, htF, _⟩ := this
+    exact ⟨t, hvt, Ft, hres, hgt, hrep, htF⟩
+
 /-- the states the driver of family `valheap` prints its observations from (`traceH`) are the `runH` states of the prefixes -/
 theorem C19_history_trace (ops : List HOp) (s : HState) :
     traceH ops s = (List.range ops.length).map (fun n => runH (ops.take (n + 1)) s) := by
